@@ -111,6 +111,25 @@ CHECKS = {
             TB + "np.fromstring's lenient parser is external (checked on to_str output and wrong-count texts only); TypeError paths, values "
             "outside the dtype and ndim != 2 arrays are outside the model.",
             "Lean 4 proof (validator model <=> declarative feasibility, decimal text round trip) + correspondence", "6/C04"),
+    "C02": ("proof",
+            "29 Lean theorems: all seven objective kernels (array-level, arbitrary row order, arbitrary scratch content) equal their "
+            "documented values on every feasible packing; the skyline sweep equals the sum of the skyline function for ALL inputs; "
+            "to_bin_count inverts; bins <= n_items; tie part in [1, scale]; lower <= value <= upper (unconditional for the geometric bound, "
+            "given lower_bound_bins <= k for the instance's bound = C03); strict dominance of fewer bins under every objective; the "
+            "out-of-bounds condition of the scratch kernels characterised exactly; range theorem n_items*W*H < 2^63 => no int64 wrap. Uses "
+            "the shared area lemma (pairwise disjoint rectangles inside the bin have area <= W*H).",
+            TB + "known finding int64-wrap (accepted instances with n_items*W*H >= 2^63); lower-bound clause depends on C03 for the DAMV part.",
+            "Lean 4 proof (loop invariants, column counting for skylines, Finset cell counting for areas) + correspondence", "6/C02"),
+    "C07": ("proof",
+            "Lean theorems for every n >= 2, rounds, plan in the space, accepted setting and scratch content: countErrors = 0 <=> the plan is a "
+            "feasible round-robin schedule (both directions, spec written from the property text), equals the documented per-rule count on "
+            "consistent plans, is non-negative, scratch-independent and never out of bounds (incl. self-play entries). The declared upper "
+            "bound is REFUTED in general (theorem upperBound_claim_false = known finding) and proved on the class of consistent plans with "
+            "minima <= 1 and non-binding separation_max; every added hypothesis has a Lean counterexample reproduced on the real code. Plus "
+            "exhaustive enumeration of all 12^6 four-team plans (thorough; 2 % slice quick).",
+            TB + "known finding upper_bound_exceeded; numba int64 arithmetic on int8 loads.",
+            "Lean 4 proof (column scan state machine <=> declarative run/separation/pair-count specification) + correspondence + enumeration",
+            "6/C07"),
 }
 NOT_YET = "check not built yet (work in progress; see DESIGN.md section 6)"
 
